@@ -7,7 +7,7 @@
 From Coq Require Import String.
 From Coq Require Import List NArith ZArith Bool.
 From SK Require Import lib.LGraph lib.C01_GraphLemmas model.C01_Model model.C02_Model model.C01_Opts model.C01_String model.C01_Renum model.C01_Attrs model.C01_CleanWc model.C01_Rsmi model.C01_Nbrs model.C01_Rewrite model.C01_Conv model.C01_G2M
-  proof.C01_Proof proof.C01_OptsProof proof.C01_StringProof proof.C01_StringHyd proof.C01_StringPipe proof.C01_StringEH proof.C01_StringRenum proof.C01_StringHydExt proof.C01_RenumCentre proof.C01_RenumWrite proof.C01_StringEHwf proof.C01_AttrsProof proof.C01_StringPipeH proof.C01_CleanWcProof proof.C01_RsmiProof proof.C01_NbrsProof proof.C01_RewriteProof proof.C01_ConvProof proof.C01_G2MProof.
+  proof.C01_Proof proof.C01_OptsProof proof.C01_StringProof proof.C01_StringHyd proof.C01_StringPipe proof.C01_StringEH proof.C01_StringRenum proof.C01_StringHydExt proof.C01_RenumCentre proof.C01_RenumWrite proof.C01_StringEHwf proof.C01_AttrsProof proof.C01_StringPipeH proof.C01_CleanWcProof proof.C01_RsmiProof proof.C01_NbrsProof proof.C01_RewriteProof proof.C01_ConvProof proof.C01_G2MProof proof.C01_WriteExt.
 Import ListNotations.
 Local Open Scope Z_scope.
 
@@ -644,3 +644,26 @@ Theorem C01_graph_to_mol_absent :
      graph_to_wmol_g ibo uhc (LG (gnodes g) (map (fun e : N * N * option Z => let '(u, v, o) := e in (u, v, Some (dflt 2 o))) (gedges g)))).
 Proof. exact (conj g2m_lift g2m_absent). Qed.
 Print Assumptions C01_graph_to_mol_absent.
+
+(** 41. ... and on the WRITER side: what its_to_rsmi hands to GraphToMol depends only on the label and bond maps of the ITS
+        (reaction centre, the SET of its hydrogens' atom maps, the folding of all other hydrogens), so a reaction written with
+        its sides re-rooted / reordered gives the same preserve set and the same two graphs to write *)
+Theorem C01_written_invariant :
+  (forall I I' : its, wf I -> wf I' -> geq I' I ->
+     (forall z, In z (hlist I') <-> In z (hlist I)) /\
+     geq (fst (its_to_graphs I')) (fst (its_to_graphs I)) /\ geq (snd (its_to_graphs I')) (snd (its_to_graphs I))) /\
+  (forall (sr sp : nat -> nat) (mr mr' mp mp' : rmol),
+     rewritten sr mr mr' -> rewritten sp mp mp' ->
+     (NoDup (map fst (mapped_nodes mr)) /\ simple (mapped_bonds mr)) -> (NoDup (map fst (mapped_nodes mr')) /\ simple (mapped_bonds mr')) ->
+     (NoDup (map fst (mapped_nodes mp)) /\ simple (mapped_bonds mp)) -> (NoDup (map fst (mapped_nodes mp')) /\ simple (mapped_bonds mp')) ->
+     wf (graph_of mr) -> wf (graph_of mp) -> wf (graph_of mr') -> wf (graph_of mp') ->
+     let I := its_construct (graph_of mr) (graph_of mp) in
+     let I' := its_construct (graph_of mr') (graph_of mp') in
+     (forall z, In z (hlist I') <-> In z (hlist I)) /\
+     geq (fst (its_to_graphs I')) (fst (its_to_graphs I)) /\ geq (snd (its_to_graphs I')) (snd (its_to_graphs I))).
+Proof.
+  split.
+  - intros I I' W W' E. split; [apply hlist_ext; assumption|apply its_to_graphs_ext; assumption].
+  - exact rewritten_written.
+Qed.
+Print Assumptions C01_written_invariant.
